@@ -4,12 +4,19 @@ package runtime_test
 
 // Overlaid into /repo/internal/runtime by /verif/check C11 (external test package: may import every runtime package).
 //   L                                  -> F <pkg> <name> <in types,..> <out types,..> <variadic>   for every IsNative entry
+//   T <dir of internal/runtime/sort>   -> W <Ego name> <wrapper func>  (package table)  and
+//                                         T <func> <sort.X reached, comma separated or ->   (go/ast: which functions of Go's
+//                                         sort package each package-level function reaches, directly, as a function value, or
+//                                         through other functions of the package)
 //   C <id> <pkg> <name> <type:hex>...  -> <id> <canonical result>   the Go library function of that name called directly (c11go)
 
 import (
 	"bufio"
 	"encoding/hex"
 	"fmt"
+	"go/ast"
+	"go/parser"
+	"go/token"
 	"math"
 	"os"
 	gofilepath "path/filepath"
@@ -222,6 +229,8 @@ func TestVerifC11Direct(t *testing.T) {
 					fmt.Fprintf(w, "F %s %s %s %s %v\n", p, k, "("+strings.Join(ins, ",")+")", "("+strings.Join(outs, ",")+")", ft.IsVariadic())
 				}
 			}
+		case "T":
+			c11sortAnalysis(w, f[1])
 		case "C":
 			id, pkg, name := f[1], f[2], f[3]
 			gofn, known := c11go[pkg+"."+name]
@@ -284,5 +293,139 @@ func TestVerifC11Direct(t *testing.T) {
 				fmt.Fprintf(w, "%s %s\n", id, strings.Join(parts, " "))
 			}()
 		}
+	}
+}
+
+// c11sortAnalysis parses the non-test files of the Ego sort package and prints the table entries and, for every
+// package-level function, the set of Go sort.* functions it reaches.
+func c11sortAnalysis(w *bufio.Writer, dir string) {
+	fset := token.NewFileSet()
+
+	pkgs, err := parser.ParseDir(fset, dir, func(fi os.FileInfo) bool { return !strings.HasSuffix(fi.Name(), "_test.go") }, 0)
+	if err != nil {
+		fmt.Fprintf(w, "TERR %v\n", err)
+
+		return
+	}
+
+	direct := map[string]map[string]bool{} // func -> sort.X used in its body
+	calls := map[string]map[string]bool{}  // func -> package-level identifiers used in its body
+	funcs := map[string]bool{}
+
+	for _, pkg := range pkgs {
+		for _, file := range pkg.Files {
+			sortName := ""
+			for _, imp := range file.Imports {
+				if imp.Path.Value == `"sort"` {
+					sortName = "sort"
+					if imp.Name != nil {
+						sortName = imp.Name.Name
+					}
+				}
+			}
+
+			for _, d := range file.Decls {
+				fd, ok := d.(*ast.FuncDecl)
+				if ok && fd.Recv == nil {
+					funcs[fd.Name.Name] = true
+				}
+			}
+
+			for _, d := range file.Decls {
+				switch decl := d.(type) {
+				case *ast.FuncDecl:
+					if decl.Recv != nil || decl.Body == nil {
+						continue
+					}
+
+					name := decl.Name.Name
+					direct[name], calls[name] = map[string]bool{}, map[string]bool{}
+
+					ast.Inspect(decl.Body, func(n ast.Node) bool {
+						switch x := n.(type) {
+						case *ast.SelectorExpr:
+							if id, ok := x.X.(*ast.Ident); ok && sortName != "" && id.Name == sortName && id.Obj == nil {
+								direct[name][x.Sel.Name] = true
+							}
+						case *ast.Ident:
+							calls[name][x.Name] = true
+						}
+
+						return true
+					})
+				case *ast.GenDecl:
+					// the package table: "Name": data.Function{ ..., Value: wrapper, ... }
+					ast.Inspect(decl, func(n ast.Node) bool {
+						kv, ok := n.(*ast.KeyValueExpr)
+						if !ok {
+							return true
+						}
+
+						key, ok := kv.Key.(*ast.BasicLit)
+						lit, ok2 := kv.Value.(*ast.CompositeLit)
+						if !ok || !ok2 || key.Kind != token.STRING {
+							return true
+						}
+
+						for _, el := range lit.Elts {
+							if f, ok := el.(*ast.KeyValueExpr); ok {
+								if k, ok := f.Key.(*ast.Ident); ok && k.Name == "Value" {
+									if v, ok := f.Value.(*ast.Ident); ok {
+										fmt.Fprintf(w, "W %s %s\n", strings.Trim(key.Value, `"`), v.Name)
+									}
+								}
+							}
+						}
+
+						return true
+					})
+				}
+			}
+		}
+	}
+
+	names := []string{}
+	for n := range direct {
+		names = append(names, n)
+	}
+
+	sort.Strings(names)
+
+	for _, n := range names {
+		seen, reach := map[string]bool{}, map[string]bool{}
+
+		var visit func(string)
+
+		visit = func(f string) {
+			if seen[f] {
+				return
+			}
+
+			seen[f] = true
+			for s := range direct[f] {
+				reach[s] = true
+			}
+
+			for c := range calls[f] {
+				if funcs[c] {
+					visit(c)
+				}
+			}
+		}
+
+		visit(n)
+
+		r := []string{}
+		for s := range reach {
+			r = append(r, s)
+		}
+
+		sort.Strings(r)
+
+		if len(r) == 0 {
+			r = []string{"-"}
+		}
+
+		fmt.Fprintf(w, "T %s %s\n", n, strings.Join(r, ","))
 	}
 }
